@@ -17,6 +17,10 @@
           "l"  one line, lines[1] (a sequence of fields), version ver
           "d"  a document lines (version ver, dialect dia)
           "t"  raw text / "a" API strings: only the result classes matter (C07)
+          "h"  an API history (MC_Lex layer hist: load a document, assign a string to a
+               positional field of a connected line, then remove / disconnect / validate /
+               write): a row is the sequence of the result classes of its calls at one
+               validation level; every call must end in an allowed outcome (C07)
      res[j]  the j-th observation row, made at validation level lv[j];
              for kinds f, l, d a row is <<construction, validate(), validate_field(), written>>
 
